@@ -45,6 +45,15 @@ add("C19", "exploration",
     "Trusts the installed reference headers (names on which they disagree or which none defines are counted, not judged) and a 9-entry spelling alias table.",
     "exhaustive enumeration with a differential oracle (reference headers evaluated by the C compiler)", "DESIGN.md §5 C19")
 
+add("C01", "exploration",
+    "Seeded proptest search over (input bytes x walker arguments): structured rich files with boundary-value header overrides and body corruption, linker-produced samples with field-level overrides/splices/truncations, raw bytes; an allocation-free walker calls every public entry point of the no_std core, incl. the stand-alone parsers on arbitrary sub-slices with offsets up to usize::MAX, alignments up to 2^64-1 and counts up to u64::MAX, under overflow checks and debug assertions; parse_ident is enumerated over every buffer length 0..20. Oracle = no panic (validity monitor). The thorough tier adds a coverage-guided libFuzzer campaign over the same oracle.",
+    "A panic is caught with catch_unwind; an abort would end the checker with exit 2. 64-bit host only.",
+    "property-based testing (proptest) + coverage-guided fuzzing (libFuzzer) with a no-panic monitor; exhaustive enumeration of short ident buffers", "DESIGN.md §5 C01")
+add("C06", "exploration",
+    "The C01 input domain under a counting global allocator with a per-thread window around the whole slice-parser walk (oracle: zero allocator calls, Ok and Err paths alike), plus exhaustive enumeration of the feature power set: cargo check for all 8 subsets and bare-metal builds (-Zbuild-std=core[,alloc], x86_64-unknown-none) for the 4 subsets without std.",
+    "Trusts the allocator shim (every alloc/realloc/alloc_zeroed on the walking thread is counted) and the nightly build-std machinery for the no-std/no-alloc dependency clause.",
+    "property-based testing (proptest) with an allocation-counting monitor; exhaustive configuration enumeration with the compiler as oracle", "DESIGN.md §5 C06")
+
 NOT_YET = {}
 allp = [json.loads(l)["id"] for l in open("properties.jsonl")]
 checks = []
